@@ -76,6 +76,16 @@ CLAIMED = {
              'repeated reads, intervening sample-at, definition under in-scope/in-group/in-groups; oracle = v vs body text in place.',
         ref='DESIGN.md §6 C13', note='Single trace; strictly increasing timestamps (increasing_identifies). The link between the concrete read and the abstract read step is by read_hit/read_miss, not a full refinement proof.',
         technique='Lean 4 proof (cache invariant over all operation histories) + correspondence'),
+    'C08': dict(
+        text='Rule soundness, one theorem per rewrite of optimize, each against an arbitrary literal-respecting evaluator of the sub-terms: '
+             'and_fold/and_rule, or_fold/or_rule (folding over the leading run of literals decides exactly like the evaluation, same state), '
+             'if_rule3/if_rule2, do_rule, add_rule_num, add_rule_str, mul_rule_int_partial, quote_untouched, atom_untouched, evalStep_lit, and '
+             'the rewrite step composed with one evaluator layer (optimize_and_partial, optimize_or_partial). Correspondence and search: every '
+             'generated program runs with and without the pass (without and with resolve) on fresh interpreters and on the model; oracle = '
+             'result+type, stdout, variables, trace index with vs without the pass on the implementation.',
+        ref='DESIGN.md §6 C08', note='The global preservation theorem (congruence through every operator, closure bodies) is not proved; it is covered by the with/without '
+             'differential on implementation and model. The float case of the * rule rests on IEEE 1*x = x (stated for integers only).',
+        technique='Lean 4 proof (per-rewrite soundness for every sub-evaluator) + with/without-pass differential'),
 }
 
 REASONS_PENDING = 'check under construction in this round (DESIGN.md §13 build order); not a claim of inapplicability'
